@@ -218,7 +218,7 @@ class CreditScaling(Family):
         self.kind = kind
         self.name = 'single_alternative_credit_%s' % kind
         self.rule = ('%s grader holding ONE alternative {expect, grade_decimal c, msg}: for every pool alternative (tuple-valued '
-                     'expects member by member), credits c in {the pool\'s, 0, 0.25, 1} and every input, the grade is c times the '
+                     'expects member by member), credits c in {the pool\'s, 0, 0.25, 1, 1/3, 0.99996, 0.00004} and every input, the grade is c times the '
                      'grade of the same grader holding the bare expect value, ok follows the grade, and a zero result never '
                      'carries full marks' % kind)
 
@@ -232,7 +232,7 @@ class CreditScaling(Family):
             if not isinstance(alt, dict):
                 alt = {'expect': alt, 'grade_decimal': 1, 'msg': ''}
             for m in (alt['expect'] if isinstance(alt['expect'], tuple) else (alt['expect'],)):
-                for c in (alt['grade_decimal'], 0, 0.25, 1):
+                for c in (alt['grade_decimal'], 0, 0.25, 1, 1.0 / 3, 0.99996, 0.00004):
                     cand = (m, c, alt['msg'])
                     if cand not in self.members:
                         self.members.append(cand)
